@@ -329,7 +329,11 @@ func c13RouteGen(g *hx.Gen) {
 	}
 	paths := []string{"/a.php", "/A.PHP", "/a.PhP", "/a.php/extra/info", "/a.php/x.php/y", "/app/", "/app", "/app/x.php", "/APP/X.PHP", "/app/sub/y.PHP", "/app/sub/y.php",
 		"/UP.PHP", "/UP.PHP/info", "/up.php", "/b.txt", "/missing.php", "/missing", "/a.php.", "/a.php ", "/a.php. .", "//a.php", "/app//x.php", "/app/dl/z.php", "/app/dl", "/app/DL/z.php",
-		"/app/static/s.php", "/", "", "/dir.php/f.txt", "/dir.php/", "/c.php5", "/a.phpx", "/app/./x.php", "/.php", "/app/x.php/", "/app/q.cgi", "/app/q.cgi/pi", "/index.php", "/app/index.php/a/b", "/t.php", "/t.php.", "/t.php..", "/u.php .", "/u.php", "/t.php. ", "/a.php5"}
+		"/app/static/s.php", "/", "", "/dir.php/f.txt", "/dir.php/", "/c.php5", "/a.phpx", "/app/./x.php", "/.php", "/app/x.php/", "/app/q.cgi", "/app/q.cgi/pi", "/index.php", "/app/index.php/a/b", "/t.php", "/t.php.", "/t.php..", "/u.php .", "/u.php", "/t.php. ", "/a.php5",
+		// the split string occurs again inside PATH_INFO, in every letter-case combination relative to
+		// the script's occurrence: the split must be at the FIRST occurrence under the mode's comparison
+		"/UP.PHP/report.php", "/UP.PHP/report.PHP", "/a.php/report.PHP", "/a.php/report.php", "/a.PhP/x.php/y.PHP", "/UP.PHP/a.Php/b.php",
+		"/app/sub/y.PHP/export/list.php/3", "/app/x.php/a.PHP/b.php", "/INDEX.PHP/report.php", "/index.php/r.PHP", "/a.PHP.php", "/a.php.PHP", "/.PHP.php.PHP"}
 	methods := []string{"GET", "GET", "POST", "POST", "HEAD", "OPTIONS", "PUT", "DELETE", "PATCH"}
 	hdrLines := []string{"X-Foo: bar", "X-Foo: second", "Accept: */*", "Cookie: a=b; c=d", "Content-Type: application/json", "x-lower-case: v", "User-Agent: verif/1.0 (x y)", "X-Empty:", "Proxy: http://evil", "Authorization: Basic dTpw", "X-With-Dash-And-9: 9"}
 	remotes := []string{"192.0.2.1:1234", "[2001:db8::1]:443", "noport", "[::1]"}
@@ -347,6 +351,15 @@ func c13RouteGen(g *hx.Gen) {
 			if g.Thorough() || strings.ContainsAny(p, "APXYU") || rs == ruleSets[5] {
 				emit(true, rs, fileSets[0], "GET", p, "", "", nil, remotes[0], "none")
 			}
+		}
+	}
+	// runes whose lower-case form has another byte length (U+0130 İ: 2 -> 3 bytes, U+212A K: 3 -> 1):
+	// an offset found in a lower-cased copy does not fit the original path
+	for _, rs := range []string{ruleSets[0], ruleSets[4], "/|.php|.PHP|||"} {
+		for _, p := range []string{"/İ/a.php", "/İİİ.php", "/İ/a.php/info", "/K/a.php", "/K/a.php/in/fo", "/KK/UP.PHP/x",
+			"/a.php/K.php", "/é/a.php/x", "/İİİİİİ.php", "/\xff/a.php/pi", "/ȺȺȺ.php", "/Ⱥ/a.php/x", "/ȺȺȺȺ/UP.PHP"} {
+			emit(false, rs, fileSets[0], "GET", p, "", "", nil, remotes[0], "none")
+			emit(true, rs, fileSets[0], "GET", p, "", "", nil, remotes[0], "none")
 		}
 	}
 	n := 500
